@@ -4,6 +4,7 @@
 mod catalogue;
 mod errs;
 mod ext;
+mod items;
 mod ext_array;
 mod ext_schema;
 mod ext_spec;
